@@ -8,9 +8,12 @@
    rate, the limit for the iterates and for hals_nnls itself (warm and cold start), objective gap from KKT residuals, tol = 0
    runs all passes; FISTA -- descent of the projected step / first iteration / default step, the O(1/K^2) rate (any tol);
    uniqueness of the KKT point; optimality at any bound epsilon; active set -- non-negativity on every exit and the exit
-   certificate under any sign-preserving rounding; the entry point fista with its argument handling (one refuted clause). *)
+   certificate under any sign-preserving rounding; the entry point fista with its argument handling.
+   Round 6: fista's ridge_coef = None reads as 0 (repaired code ae57725; the refuted / partial pair became C13_fista_returns); finite
+   termination of active_set_nnls and its end-to-end statement (exact arithmetic, positive definite UtU, total tl.solve); the
+   iterates of fista converge to the solution with rate O(1/m) and their KKT residuals with them. *)
 From Coq Require Import List Arith Reals Lra QArith Qabs.
-From TLV Require Import Base.Ops Base.Tensor Base.RSum Model.Nnls Model.NnlsEntry Proofs.NnlsProofs Proofs.NnlsProofsDescent Proofs.NnlsProofsNz Proofs.NnlsProofsAdmm Proofs.NnlsProofsFista Proofs.NnlsProofsFista2 Proofs.NnlsProofsAset Proofs.NnlsProofsAsetCert Proofs.NnlsProofsAsetFull Proofs.NnlsProofsExamples Proofs.NnlsProofsConv Proofs.NnlsProofsStep Proofs.NnlsProofsEntry Proofs.NnlsProofsGap Proofs.NnlsProofsTol0 Proofs.NnlsProofsAsetRnd Proofs.NnlsProofsUnique Proofs.NnlsProofsLimit Proofs.NnlsProofsFistaRate Proofs.NnlsProofsEps.
+From TLV Require Import Base.Ops Base.PyList Base.Tensor Base.RSum Model.Nnls Model.NnlsEntry Proofs.NnlsProofs Proofs.NnlsProofsDescent Proofs.NnlsProofsNz Proofs.NnlsProofsAdmm Proofs.NnlsProofsFista Proofs.NnlsProofsFista2 Proofs.NnlsProofsAset Proofs.NnlsProofsAsetCert Proofs.NnlsProofsAsetFull Proofs.NnlsProofsExamples Proofs.NnlsProofsConv Proofs.NnlsProofsStep Proofs.NnlsProofsEntry Proofs.NnlsProofsGap Proofs.NnlsProofsTol0 Proofs.NnlsProofsAsetRnd Proofs.NnlsProofsUnique Proofs.NnlsProofsLimit Proofs.NnlsProofsFistaRate Proofs.NnlsProofsEps Proofs.NnlsProofsAsetTerm.
 Import ListNotations.
 Open Scope R_scope.
 
@@ -673,6 +676,34 @@ Theorem C13_fista_rate_any_tol : forall (UtM UtU : list (list R)) (r n : nat) (s
 Proof. exact fista_rate_any_tol. Qed.
 Print Assumptions C13_fista_rate_any_tol.
 
+(* THE ITERATES CONVERGE TO THE SOLUTION (round 6): with mu > 0 a lower bound of the penalised form (mu |d|^2 <= d'UtU d + 2 ridge |d|^2:
+   the well-conditioned problem of the property) the point y returned by fista -- any tol, stopped at iteration m -- satisfies
+   lr (m+1)^2 mu |y[:,j] - X[:,j]|^2 <= 4 |x_0[:,j] - X[:,j]|^2 for the KKT point X: rate O(1/m) in distance, X the only limit point *)
+Theorem C13_fista_distance_rate : forall (UtM UtU : list (list R)) (r n : nat) (sp rd lr tol eps mu : R) (j : nat) (X : list (list R)) (K' : nat) (x0 : list (list R)),
+  wfm r r UtU -> wfm r n UtM -> (j < n)%nat -> (forall i k, Gf UtU i k = Gf UtU k i) -> (forall d, 0 <= quad r (Gf UtU) d) ->
+  0 <= rd -> 0 < lr ->
+  (forall d : nat -> R, lr * (quad r (Gf UtU) d + 2 * rd * rsum r (fun i => (d i)^2)) <= rsum r (fun i => (d i)^2)) ->
+  (forall d : nat -> R, mu * rsum r (fun i => (d i)^2) <= quad r (Gf UtU) d + 2 * rd * rsum r (fun i => (d i)^2)) ->
+  (forall i, (i < r)%nat -> eps <= mget Rops X i j /\ 0 <= qp_grad r (Gf UtU) (bf UtM j) sp rd (colf X j) i /\
+                            (mget Rops X i j - eps) * qp_grad r (Gf UtU) (bf UtM j) sp rd (colf X j) i = 0) ->
+  wfm r n x0 ->
+  let y := fista Rops UtM UtU n true sp rd lr tol eps x0 (map (beta_of tseq) (seq 0 (S K'))) in
+  exists m, (1 <= m <= S K')%nat /\
+    lr * (INR m + 1)^2 * (mu * rsum r (fun i => (mget Rops y i j - mget Rops X i j)^2)) <= 4 * rsum r (fun i => (mget Rops x0 i j - mget Rops X i j)^2).
+Proof. exact fista_distance_rate. Qed.
+Print Assumptions C13_fista_distance_rate.
+
+(* ... and the distance to a KKT point bounds the KKT residuals of ANY point y: with E_i = sum_l |G[i,l]| |y_l - X_l| + 2 ridge |y_i - X_i|,
+   gradient_i(y) >= -E_i and |(y_i - eps) gradient_i(y)| <= |y_i - eps| E_i + |y_i - X_i| gradient_i(X); with the theorem above the KKT
+   residuals of the points fista returns tend to zero like O(1/m), and every limit point is the KKT point *)
+Theorem C13_kkt_residual_from_distance : forall (n : nat) (G : nat -> nat -> R) (b : nat -> R) (l1 l2 eps : R) (X y : nat -> R) (i : nat),
+  (i < n)%nat -> 0 <= l2 -> eps <= X i -> 0 <= qp_grad n G b l1 l2 X i -> (X i - eps) * qp_grad n G b l1 l2 X i = 0 ->
+  let E := rsum n (fun l => Rabs (G i l) * Rabs (y l - X l)) + 2 * l2 * Rabs (y i - X i) in
+  - E <= qp_grad n G b l1 l2 y i /\
+  Rabs ((y i - eps) * qp_grad n G b l1 l2 y i) <= Rabs (y i - eps) * E + Rabs (y i - X i) * qp_grad n G b l1 l2 X i.
+Proof. exact kkt_residual_from_distance. Qed.
+Print Assumptions C13_kkt_residual_from_distance.
+
 (* THE CALL AS A USER WRITES IT (entry point, Model/NnlsEntry.v): default step lr=None with sigma bounding the Rayleigh quotient of
    UtU, any start (x=None: zeros, infeasible for the default epsilon = 1e-8), any tol / epsilon / sparsity_coef (None -> 0), a number
    as ridge_coef, the code's momentum, n_iter_max = K'+1: the call returns and the objective gap of the returned point in column j
@@ -707,35 +738,37 @@ Proof. exact ex_fista_lipschitz. Qed.
 (* ---------------------------------------------------------------------------------------------- *)
 (*  fista: the entry point with its argument handling (Model/NnlsEntry.v, round 5)                 *)
 (* ---------------------------------------------------------------------------------------------- *)
-(* REFUTED (genuine defect, known_findings.d/C13.json: fista_ridge_coef_none): "fista returns a solution for every
-   penalisation it offers".  The docstring offers `ridge_coef : float or None`; sparsity_coef = None is read as 0, but
-   ridge_coef = None is multiplied as a number (default step, gradient) and the call raises TypeError -- modelled Err.
-   Witness: UtU = [[2,1],[1,2]], UtM = (3,-3), every other argument at its default. *)
-Theorem C13_fista_returns_refuted : exists (UtM UtU : list (list R)) (betas : list R),
-  fista_call Rops UtM UtU 1 true (Some 0) None None 3 (1 / 100000000) 0 None betas = Err /\ betas <> [].
-Proof. exact fista_call_ridge_none_witness. Qed.
-Print Assumptions C13_fista_returns_refuted.
-
-(* ... and for ANY arguments (any field): ridge_coef = None raises *)
-Theorem C13_fista_ridge_none_raises : forall (F : Type) (Op : fops F) UtM UtU n nonneg sp lr sigma tol eps x0 betas,
-  fista_call Op UtM UtU n nonneg sp None lr sigma tol eps x0 betas = Err.
-Proof. exact @fista_call_ridge_none. Qed.
-Print Assumptions C13_fista_ridge_none_raises.
-
-(* PARTIAL (the restriction that holds: ridge_coef a number): the call returns; it is `fista` on sparsity_coef (None -> 0),
-   the start (None -> zeros of UtM's shape) and the step (None -> 1 / (sigma + 2 ridge), sigma the recorded leading
-   singular value of UtU), so every theorem about `fista` above applies to the entry point; with non_negative = True and
-   at least one iteration every entry of the returned matrix is >= epsilon *)
-Theorem C13_fista_returns_partial : forall (UtM UtU : list (list R)) (r n : nat) (sp lr : option R) (rd sigma tol eps : R)
+(* FULL (repaired code, /repo ae57725; before, ridge_coef = None -- offered by the docstring -- raised TypeError: the refuted /
+   partial pair of round 5): for EVERY offered value of sparsity_coef / ridge_coef / lr / x (a number or None) the call
+   returns; it IS `fista` on sparsity_coef (None -> 0), ridge_coef (None -> 0), the start (None -> zeros of UtM's shape) and the
+   step (None -> 1 / (sigma + 2 ridge), sigma the recorded leading singular value of UtU), so every theorem about `fista`
+   applies to the entry point; with non_negative = True and at least one iteration every entry of the result is >= epsilon *)
+Theorem C13_fista_returns : forall (UtM UtU : list (list R)) (r n : nat) (sp rd lr : option R) (sigma tol eps : R)
   (x0 : option (list (list R))) (betas : list R),
   wfm r r UtU -> wfm r n UtM -> match x0 with Some x => wfm r n x | None => True end -> betas <> [] ->
-  exists W, fista_call Rops UtM UtU n true sp (Some rd) lr sigma tol eps x0 betas = Ok W /\
-    W = fista Rops UtM UtU n true (match sp with Some s => s | None => 0 end) rd
-              (match lr with Some l => l | None => 1 / (sigma + 2 * rd) end) tol eps
+  let rdv := match rd with Some v => v | None => 0 end in
+  exists W, fista_call Rops UtM UtU n true sp rd lr sigma tol eps x0 betas = Ok W /\
+    W = fista Rops UtM UtU n true (match sp with Some s => s | None => 0 end) rdv
+              (match lr with Some l => l | None => 1 / (sigma + 2 * rdv) end) tol eps
               (match x0 with Some x => x | None => zeros_like Rops UtM end) betas /\
     forall i j, (i < r)%nat -> (j < n)%nat -> eps <= mget Rops W i j.
-Proof. exact fista_call_some. Qed.
-Print Assumptions C13_fista_returns_partial.
+Proof. exact fista_call_returns. Qed.
+Print Assumptions C13_fista_returns.
+
+(* ridge_coef = None is ridge_coef = 0 (any field): the theorems below, stated with a number as ridge_coef, cover None *)
+Theorem C13_fista_ridge_none_is_zero : forall (F : Type) (Op : fops F) UtM UtU n nonneg sp lr sigma tol eps x0 betas,
+  fista_call Op UtM UtU n nonneg sp None lr sigma tol eps x0 betas = fista_call Op UtM UtU n nonneg sp (Some (f0 Op)) lr sigma tol eps x0 betas.
+Proof. exact @fista_call_ridge_none_is_zero. Qed.
+Print Assumptions C13_fista_ridge_none_is_zero.
+
+(* before_ae57725 (regression of the repaired defect): under the old rule the all-default call on UtU = [[2,1],[1,2]], UtM = (3,-3)
+   with ridge_coef = None raised (Err); the repaired call returns what ridge_coef = 0 returns *)
+Example C13_fista_ridge_none_before_ae57725 :
+  exists (UtM UtU : list (list R)) (betas : list R), betas <> [] /\
+    fista_call_before_ae57725 Rops UtM UtU 1 true (Some 0) None None 3 (1 / 100000000) 0 None betas = Err /\
+    (fista_call Rops UtM UtU 1 true (Some 0) None None 3 (1 / 100000000) 0 None betas =
+     fista_call Rops UtM UtU 1 true (Some 0) (Some 0) None 3 (1 / 100000000) 0 None betas).
+Proof. exact fista_call_before_ae57725_witness. Qed.
 
 (* the DEFAULT step: when sigma bounds the Rayleigh quotient of UtU (contract of the recorded leading singular value; satisfiable:
    Example below) the default step 1 / (sigma + 2 ridge) meets the step-size condition, so the all-default-step call with
@@ -839,6 +872,80 @@ Theorem C13_active_set_exit_kkt_rounded :
       (nth i p true = false -> nth i y 0 = 0 /\ nth i (gradient Rops Utm UtU y) 0 <= tol).
 Proof. exact active_set_exit_kkt_full_r. Qed.
 Print Assumptions C13_active_set_exit_kkt_rounded.
+
+(* FINITE TERMINATION (round 6, Lawson-Hanson): exact arithmetic, UtU symmetric POSITIVE DEFINITE (`Gm UtU i j` = UtU[i][j]), tl.solve
+   with its contract and TOTAL on the blocks (it never raises: `solve_scatter ... p <> None` for every mask p of the problem's
+   length), tol >= 0, cold start or any non-negative warm start.  Every outer iteration after the first strictly decreases the
+   objective (the index entering the passive set gets a positive value -- C13_active_set_new_index --, the first interpolation
+   step has alpha > 0, later steps and block solves do not increase it); the iterate at the end of an iteration is the support
+   vector of its passive set, so no passive set repeats and with more than 2^r + 1 iterations the budget NEVER runs out. *)
+Theorem C13_active_set_never_out_of_budget :
+  forall (solve : list (list R) -> list R -> option (list R)) (Utm : list R) (UtU : list (list R)) (tol : R),
+  length UtU = length Utm -> (forall i, (i < length Utm)%nat -> length (nth i UtU []) = length Utm) ->
+  (forall A b ps, solve A b = Some ps -> Forall2 (fun row bi => dot Rops row ps = bi) A b) ->
+  (forall i j, Gm UtU i j = Gm UtU j i) ->
+  (forall d : nat -> R, (exists i, (i < length Utm)%nat /\ d i <> 0) -> 0 < quad (length Utm) (Gm UtU) d) ->
+  0 <= tol ->
+  (forall p, length p = length Utm -> solve_scatter Rops solve Utm UtU p <> None) ->
+  forall (x0 : option (list R)) (n_iter_max : nat) (y : list R),
+  match x0 with Some x => length x = length Utm /\ Forall (fun v => 0 <= v) x | None => True end ->
+  (2 ^ length Utm + 1 < n_iter_max)%nat ->
+  active_set_run Rops solve (fun v => v) Utm UtU tol x0 n_iter_max <> Some (y, false).
+Proof. exact active_set_never_out_of_budget. Qed.
+Print Assumptions C13_active_set_never_out_of_budget.
+
+(* the Lawson-Hanson key step: x the support vector of p (positive on p), i1 outside p with positive gradient: the support vector
+   of p + {i1} is positive at i1 and has a strictly smaller objective *)
+Theorem C13_active_set_new_index :
+  forall (solve : list (list R) -> list R -> option (list R)) (Utm : list R) (UtU : list (list R)),
+  length UtU = length Utm -> (forall i, (i < length Utm)%nat -> length (nth i UtU []) = length Utm) ->
+  (forall A b ps, solve A b = Some ps -> Forall2 (fun row bi => dot Rops row ps = bi) A b) ->
+  (forall i j, Gm UtU i j = Gm UtU j i) ->
+  (forall d : nat -> R, (exists i, (i < length Utm)%nat /\ d i <> 0) -> 0 < quad (length Utm) (Gm UtU) d) ->
+  forall (x : list R) (p : list bool) (i1 : nat) (s1 : list R),
+  pinv solve Utm UtU x p -> (i1 < length Utm)%nat -> nth i1 p false = false -> 0 < nth i1 (gradient Rops Utm UtU x) 0 ->
+  solve_scatter Rops solve Utm UtU (set_nth i1 true p) = Some s1 ->
+  0 < nth i1 s1 0 /\ fobj Utm UtU s1 < fobj Utm UtU x /\ 0 < quad (length Utm) (Gm UtU) (fun i => xf x i - xf s1 i).
+Proof. exact new_index. Qed.
+Print Assumptions C13_active_set_new_index.
+
+(* END TO END, without the budget caveat: under the same hypotheses and a non-empty problem, active_set_nnls with a budget above
+   2^r + 1 RETURNS (no exception escapes, the budget does not run out) through its termination test a vector of the problem's
+   length satisfying the KKT conditions within tol, and for tol = 0 the global minimiser of u'(UtU)u/2 - Utm'u over u >= 0:
+   "run to convergence, active_set_nnls returns a KKT-optimal non-negative solution" *)
+Theorem C13_active_set_terminates_kkt :
+  forall (solve : list (list R) -> list R -> option (list R)) (Utm : list R) (UtU : list (list R)) (tol : R),
+  length UtU = length Utm -> (forall i, (i < length Utm)%nat -> length (nth i UtU []) = length Utm) ->
+  (forall A b ps, solve A b = Some ps -> Forall2 (fun row bi => dot Rops row ps = bi) A b) ->
+  (forall i j, Gm UtU i j = Gm UtU j i) ->
+  (forall d : nat -> R, (exists i, (i < length Utm)%nat /\ d i <> 0) -> 0 < quad (length Utm) (Gm UtU) d) ->
+  0 <= tol ->
+  (forall p, length p = length Utm -> solve_scatter Rops solve Utm UtU p <> None) ->
+  forall (x0 : option (list R)) (n_iter_max : nat), (0 < length Utm)%nat ->
+  match x0 with Some x => length x = length Utm /\ Forall (fun v => 0 <= v) x | None => True end ->
+  (2 ^ length Utm + 1 < n_iter_max)%nat ->
+  exists y, active_set_nnls Rops solve (fun v => v) Utm UtU tol x0 n_iter_max = Some y /\
+    active_set_run Rops solve (fun v => v) Utm UtU tol x0 n_iter_max = Some (y, true) /\ length y = length Utm /\
+    (exists p, length p = length Utm /\ forall i, (i < length Utm)%nat ->
+       0 <= nth i y 0 /\
+       (nth i p true = true -> nth i (gradient Rops Utm UtU y) 0 = 0) /\
+       (nth i p true = false -> nth i y 0 = 0 /\ nth i (gradient Rops Utm UtU y) 0 <= tol)) /\
+    (tol = 0 -> forall z : nat -> R, (forall i, (i < length Utm)%nat -> 0 <= z i) ->
+       qp_f (length Utm) (Gm UtU) (bv Utm) 0 0 (xf y) <= qp_f (length Utm) (Gm UtU) (bv Utm) 0 0 z).
+Proof. exact active_set_terminates_kkt. Qed.
+Print Assumptions C13_active_set_terminates_kkt.
+
+(* non-vacuity over R (also review item 1.5: the contract of tl.solve and a run reaching the termination test hold JOINTLY): the
+   1 x 1 problem UtU = [[1]], Utm = (1) with solve1 (division; None for a zero pivot) meets every hypothesis, hence its run ends
+   with flag true *)
+Example C13_active_set_termination_hypotheses_satisfiable :
+  (forall A b ps, solve1 A b = Some ps -> Forall2 (fun row bi => dot Rops row ps = bi) A b) /\
+  (length [[1]] = length [1] /\ (forall i, (i < length [1])%nat -> length (nth i [[1]] []) = length [1]) /\
+   (forall i j, Gm [[1]] i j = Gm [[1]] j i) /\
+   (forall d : nat -> R, (exists i, (i < length [1])%nat /\ d i <> 0) -> 0 < quad (length [1]) (Gm [[1]]) d) /\
+   (forall p, length p = length [1] -> solve_scatter Rops solve1 [1] [[1]] p <> None)) /\
+  (forall tol, 0 <= tol -> exists y, active_set_run Rops solve1 (fun v => v) [1] [[1]] tol None 4 = Some (y, true)).
+Proof. exact (conj solve1_ok (conj ex1_hyps ex1_terminates)). Qed.
 
 (* PARTIAL (hypothesis named below): the same certificate under ANY rounding function of the interpolation step
    (floating point), for an abstract tl.solve satisfying its contract.  Whenever the loop is
